@@ -822,4 +822,30 @@ theorem T_C13_noworse_history [LinearOrder Q] [LinearOrder S] {cfg : Cfg P Prm} 
 example : (runCalls exCfg exO [⟨exConv, 2, exSched⟩, ⟨exConv, 1, fun _ => exSched 1⟩, ⟨exConv, 3, exSched⟩] exSt0).pts
     = [0, 2, 12] := by decide
 
+/-! ### round 6b: negative qualities (tester change q3) -/
+
+/-- **Why the roll-back test must be the plain difference.** The summed quality of an almost ideal grid is
+    negative. A relative test `100·(gi − gf)/gi ≤ 0` agrees with the model's `gi ≤ gf` (`T_C13_tie_rollback_test`)
+    only for a positive initial quality; for a negative one it is `gf ≤ gi`: it rolls back exactly the steps that
+    improved and keeps the ones that made the grid worse. -/
+theorem T_C13_rollback_sign (gi gf : Rat) :
+    (0 < gi → (100 * (gi - gf) / gi ≤ 0 ↔ gi ≤ gf)) ∧ (gi < 0 → (100 * (gi - gf) / gi ≤ 0 ↔ gf ≤ gi)) := by
+  constructor
+  · intro h
+    rw [div_le_iff₀ h]
+    constructor <;> intro h' <;> linarith
+  · intro h
+    rw [div_le_iff_of_neg h]
+    constructor <;> intro h' <;> linarith
+
+/-- the quality theorems do not care about the sign: the instance with the quality shifted by −100 (grid quality
+    −91 → −100 → −100), hypotheses of `T_C13_noworse` / `T_C13_report_run` with a negative `q0` -/
+def exONeg : Oracles Int Int :=
+  { gq := fun pts => (exQuality pts).map (· - 100), jq := fun _ pts => (exQuality pts).map (· - 100) }
+
+example : exONeg.gq exSt0.pts = some (-91) ∧
+    (optimize exCfg exONeg exConv 2 exSched exSt0).hist = [(-91, -100), (-100, -100)] ∧
+    (optimize exCfg exONeg exConv 2 exSched exSt0).raised = none ∧
+    (optimize exCfg exONeg exConv 2 exSched exSt0).st.pts = [0, 2, 12] := by decide
+
 end CBV.C13
